@@ -56,6 +56,10 @@ JudgeIO(e, Fr, Gr) ==
          ELSE IF ~exp.err /\ (\E c \in 1..Len(exp.cols) : \E r \in 1..Len(exp.cols[c].cells) : exp.cols[c].cells[r] = <<2>>)
               THEN [IORes(TRUE, TRUE, FALSE) EXCEPT !.newf = <<ErrFrame>>, !.newd = <<e.dig>>]
          ELSE [IORes(ObsMatches(exp, e.obs) /\ rtOK, FALSE, FALSE) EXCEPT !.newf = <<exp>>, !.newd = <<e.dig>>]
+    [] e.op = "CsvScan" ->                    \* a behaviour of CsvScan.tla replayed through the real scanner
+         IF e.fired = 1 THEN IORes(e.err = 1, FALSE, FALSE)
+         ELSE IF ~WellFormedCsv(e.a.doc, e.a.delim) THEN IORes(TRUE, FALSE, TRUE)
+         ELSE IORes(e.err = 0 /\ (e.rows = Denote(e.a.doc, e.a.delim, TRUE) \/ e.rows = Denote(e.a.doc, e.a.delim, FALSE)), FALSE, FALSE)
     [] e.op = "ToSQL" ->
          IF e.fired = 1 THEN IORes(e.err = 1, FALSE, FALSE)                       \* C15: a failing driver is reported
          ELSE IF R.err THEN IORes(e.err = 1 /\ Len(e.dcalls) = 0, FALSE, FALSE)
